@@ -60,6 +60,12 @@ func TestCorpus(t *testing.T) {
 					bufs[r.B] = make([]byte, 4096)
 				}
 				var trace []xrt.Access
+				if perr := Exec(m, bufs.Clone(), xrt.Opts{EntryPoint: ep, StepLimit: 5000, PoisonLocals: true}); perr != nil {
+					var mal *xrt.Malformed
+					if errors.As(perr, &mal) || strings.Contains(perr.Error(), "internal error") {
+						t.Errorf("%s[%d] %s (poisoned locals): %v", base, oi, ep, perr)
+					}
+				}
 				err := Exec(m, bufs, xrt.Opts{EntryPoint: ep, StepLimit: 20000, Trace: &trace})
 				var mal *xrt.Malformed
 				var uns *xrt.Unsupported
